@@ -96,6 +96,7 @@ PROPS = {
     ),
     "C09": dict(
         level="proof", modules=["NasVerif.Props.C09"], parts=["Acc"],
+        parts_filter={"Codec": r"nasType\.\w+\.(SetLen|GetLen|SetIei|GetIei)\b"},  # the identifier / length accessors: shapes checked by the codec part
         streams=[("acc", 24, 200)], oracle="C09",
         trusted_base=TB_COMMON + ["tools/extract accessors: typed Go expression -> Acc.E (literal transcription; GetBitMask inlined from its own body)",
                                    "Spec/AccessorLayout.lean + spec/accessor_layout.json: the Row/sBit/len annotations at the pinned commit (TS 24.501 figure layouts)",
